@@ -6,7 +6,14 @@ scratch copy (outside /repo and /verif, removed immediately):
 * ``reformat``      the file is re-emitted by ``ast.unparse`` (all positions, line breaks, quoting,
                     parenthesisation and comments change; the AST is identical);
 * ``rename-locals`` every function-local variable (assigned in the function, not a parameter,
-                    not global/nonlocal) is renamed consistently inside that function.
+                    not global/nonlocal) is renamed consistently inside that function;
+* ``flip-if``       every ``if c: A else: B`` becomes ``if not c: B else: A``;
+* ``flip-compare``  every single ordering comparison ``a < b`` between side-effect free operands
+                    becomes ``b > a`` (likewise ``<=``, ``>``, ``>=``);
+* ``extract-temp``  in every function, a call that is the first positional argument of the call
+                    on the right-hand side of a plain assignment / return is hoisted into a new
+                    local (``x = f(g(y), z)`` -> ``_t1 = g(y); x = f(_t1, z)``; evaluation order
+                    is unchanged).
 
 Each variant is checked with exactly the properties whose rules consulted that file (taken from
 the committed evidence files).  A check that reports a violation or an analysis error on a twin
@@ -86,10 +93,105 @@ class Renamer(ast.NodeTransformer):
         return node
 
 
+class FlipIf(ast.NodeTransformer):
+    def visit_If(self, node):
+        self.generic_visit(node)
+        if not node.orelse:
+            return node
+        test = node.test
+        if isinstance(test, ast.UnaryOp) and isinstance(test.op, ast.Not):
+            new_test = test.operand
+        else:
+            new_test = ast.UnaryOp(op=ast.Not(), operand=test)
+        return ast.copy_location(ast.If(test=new_test, body=node.orelse, orelse=node.body), node)
+
+
+def _pure(e) -> bool:
+    if isinstance(e, (ast.Name, ast.Constant)):
+        return True
+    if isinstance(e, ast.Attribute):
+        return _pure(e.value)
+    if isinstance(e, ast.Subscript):
+        return _pure(e.value) and _pure(e.slice)
+    if isinstance(e, ast.UnaryOp):
+        return _pure(e.operand)
+    return False
+
+
+class FlipCompare(ast.NodeTransformer):
+    SWAP = {ast.Lt: ast.Gt, ast.Gt: ast.Lt, ast.LtE: ast.GtE, ast.GtE: ast.LtE}
+
+    def visit_Compare(self, node):
+        self.generic_visit(node)
+        if len(node.ops) == 1 and type(node.ops[0]) in self.SWAP and _pure(node.left) and _pure(node.comparators[0]):
+            return ast.copy_location(
+                ast.Compare(left=node.comparators[0], ops=[self.SWAP[type(node.ops[0])]()], comparators=[node.left]), node
+            )
+        return node
+
+
+class ExtractTemp(ast.NodeTransformer):
+    """x = f(g(y), z)  ->  _t1 = g(y); x = f(_t1, z)   (statements directly in a function body or
+    in the body of a compound statement; never inside comprehensions, lambdas or class bodies)."""
+
+    def __init__(self):
+        self.n = 0
+        self.in_fn = 0
+
+    def visit_FunctionDef(self, node):
+        self.in_fn += 1
+        self.generic_visit(node)
+        self.in_fn -= 1
+        return node
+
+    visit_AsyncFunctionDef = visit_FunctionDef
+
+    def visit_ClassDef(self, node):
+        saved, self.in_fn = self.in_fn, 0
+        self.generic_visit(node)
+        self.in_fn = saved
+        return node
+
+    def _hoist(self, node):
+        if not self.in_fn:
+            return node
+        v = node.value
+        if not (isinstance(v, ast.Call) and _pure(v.func) and v.args and isinstance(v.args[0], ast.Call)):
+            return node
+        inner = v.args[0]
+        if any(isinstance(n, (ast.NamedExpr, ast.Yield, ast.YieldFrom, ast.Await, ast.Starred)) for n in ast.walk(v)):
+            return node
+        self.n += 1
+        name = f"_t{self.n}"
+        pre = ast.copy_location(ast.Assign(targets=[ast.Name(id=name, ctx=ast.Store())], value=inner), node)
+        v.args[0] = ast.Name(id=name, ctx=ast.Load())
+        return [pre, node]
+
+    def visit_Assign(self, node):
+        if len(node.targets) == 1 and isinstance(node.targets[0], ast.Name):
+            return self._hoist(node)
+        return node
+
+    def visit_Return(self, node):
+        if node.value is not None:
+            return self._hoist(node)
+        return node
+
+
+KINDS = {
+    "reformat": None,
+    "rename-locals": Renamer,
+    "flip-if": FlipIf,
+    "flip-compare": FlipCompare,
+    "extract-temp": ExtractTemp,
+}
+
+
 def transform(src: str, kind: str) -> str:
     tree = ast.parse(src)
-    if kind == "rename-locals":
-        tree = Renamer().visit(tree)
+    tr = KINDS[kind]
+    if tr is not None:
+        tree = tr().visit(tree)
         ast.fix_missing_locations(tree)
     return ast.unparse(tree) + "\n"
 
@@ -149,14 +251,23 @@ def main(argv=None) -> int:
         jobs_n = int(argv[i + 1])
         del argv[i : i + 2]
     want = {a.upper() for a in argv if not a.startswith("-")}
-    kinds = ["reformat", "rename-locals"]
+    kinds = list(KINDS)
+    if "-k" in argv:
+        i = argv.index("-k")
+        kinds = argv[i + 1].split(",")
+        del argv[i : i + 2]
+        want = {a.upper() for a in argv if not a.startswith("-")}
     fp = file_props()
     jobs = []
     for rel, props in sorted(fp.items()):
         ps = props & want if want else props
         if not ps or not os.path.exists(os.path.join(REPO_ROOT, rel)):
             continue
+        src = open(os.path.join(REPO_ROOT, rel), encoding="utf-8").read()
+        base = transform(src, "reformat")
         for k in kinds:
+            if k != "reformat" and transform(src, k) == base:
+                continue  # the rewrite has no site in this file
             jobs.append((rel, k, ps))
     t0 = time.time()
     with ProcessPoolExecutor(max_workers=jobs_n) as ex:
